@@ -104,7 +104,7 @@ def run(ctx):
             feat = "mixed" if "mixed" in sc["features"] else ("branches" if "branches" in sc["features"] else "linear")
             if why == "completed-with-open-descendant":
                 orphan = orphan_cause(evs[: at + 1], vd.get("tid"))
-                sig = f"C03|{why}|{orphan}|{feat}"
+                sig = f"C03|{why}|{orphan}"
             elif why == "open-task-after-nonerror-terminal-event":
                 # which action ended the process
                 ender = next((sc["ops"][i][1] for i, o in obs_of(res, {"pev"}) if o.get("chan") == "default" and o.get("ev") == "complete" and sc["ops"][i][0] == "act"), "run")
@@ -131,11 +131,11 @@ def run(ctx):
 
 
 def orphan_cause(evs, tid):
-    """is the open task sitting beneath an ancestor that has already been closed (skipped / aborted / ...) without it?"""
+    """is the open task sitting beneath an ancestor that has already been closed without it? -> orphan:<kind>-<state> of the nearest such ancestor"""
     tasks = {}
     for e in evs:
         if e[0] == "new":
-            tasks[e[1]] = {"level": e[3], "prev": e[4], "state": "none"}
+            tasks[e[1]] = {"kind": e[2], "level": e[3], "prev": e[4], "state": "none"}
         elif e[0] == "tr" and e[1] in tasks:
             tasks[e[1]]["state"] = e[2]
 
@@ -147,14 +147,22 @@ def orphan_cause(evs, tid):
                 return p
             p = tasks[p]["prev"]
         return None
+    terminal = ("completed", "skipped", "aborted", "removed", "submitted", "error", "backed", "cancelled")
     t = tid
     seen = 0
+    chain = []
     while t is not None and t in tasks and seen < 100:
         p = parent(t)
-        if p is not None and tasks[p]["state"] in ("skipped", "aborted", "removed", "submitted", "error", "backed", "cancelled"):
-            return "orphan-under-" + tasks[p]["state"]
+        if p is not None:
+            chain.append(p)
         t = p
         seen += 1
+    # the last event is the `completed` write that tripped the monitor: skip that task itself unless nothing else is closed
+    closed = [p for p in chain if tasks[p]["state"] in terminal]
+    inner = [p for p in closed[:-1]] if len(closed) > 1 else closed
+    if inner:
+        p = inner[0]
+        return f"orphan:{tasks[p]['kind']}-{tasks[p]['state']}"
     return "counted-early"
 
 
